@@ -60,14 +60,13 @@ def drive(lib, name, seed, nsteps, criterion, perturbation, loadings=None, hyps=
         if hyps and hyp not in hyps:
             continue
         b = gbnp.B(l, name, hyp)
-        if pars is None:
-            pars = b.d["params"]
-            if "jacobianComparisonCriterion" not in pars or "numerical_jacobian_epsilon" not in pars:
-                res["skipped"] = "comparison parameters not exported (%s)" % pars
-                return res
-            for k, v in (("jacobianComparisonCriterion", criterion), ("numerical_jacobian_epsilon", perturbation)):
-                if gbnp.set_parameter(l, name, k, v) != 1:
-                    raise RuntimeError("setParameter %s failed" % k)
+        pars = b.d["params"]
+        if "jacobianComparisonCriterion" not in pars or "numerical_jacobian_epsilon" not in pars:
+            res["skipped"] = "comparison parameters not exported (%s)" % pars
+            return res
+        for k, v in (("jacobianComparisonCriterion", criterion), ("numerical_jacobian_epsilon", perturbation)):
+            if gbnp.set_parameter_any(l, name, hyp, k, v) != 1:
+                raise RuntimeError("setParameter %s failed" % k)
         unknown = [m for m in b.d["mps"] if m not in MP_DEFAULTS]
         if unknown:
             res["skipped"] = "material properties without default value: %s" % unknown
